@@ -25,12 +25,13 @@ extern "C" void vf_main(void) {
   const uint64_t sizew = (uint64_t)vf_in_u32() | ((uint64_t)vf_in_u32() << 32);
   const uint64_t cntw = (uint64_t)vf_in_u32() | ((uint64_t)vf_in_u32() << 32);
   vf_max_size_value = amax;
-  V v{A(7)};
+  V vv{A(7)};
+  typename V::base& v = (typename V::base&)vv;
   typename V::size_ty const mx = v.get_max_size();
   const uint64_t diffmax = (uint64_t)(std::numeric_limits<typename V::difference_type>::max)();
   // ---- C12: max_size() == min(allocator max, difference_type max), representable in size_type
   vf_assert((uint64_t)mx == (amax < diffmax ? amax : diffmax), "C12: max_size() is min(allocator max_size, difference_type max)");
-  vf_assert((uint64_t)v.max_size() == (uint64_t)mx, "C12: max_size() survives the conversion to size_type");
+  vf_assert((uint64_t)vv.max_size() == (uint64_t)mx, "C12: max_size() survives the conversion to size_type");
   vf_assert((uint64_t)mx <= (uint64_t)(std::numeric_limits<SZ>::max)(), "C12: max_size() fits size_type");
 
   // arbitrary valid (size, capacity) words: N <= cap <= max(max_size, N), size <= cap
@@ -38,7 +39,7 @@ extern "C" void vf_main(void) {
   vf_assume(capw >= VF_KN && capw <= capmax && sizew <= capw);
   T *const keep = v.data_ptr();
   v.set_data(keep, (typename V::size_ty)capw, (typename V::size_ty)sizew);
-  vf_assert((uint64_t)v.capacity() == capw && (uint64_t)v.size() == sizew, "C12: size and capacity survive storage in size_type");
+  vf_assert((uint64_t)vv.capacity() == capw && (uint64_t)vv.size() == sizew, "C12: size and capacity survive storage in size_type");
 
   // ---- C14 / C12: growth kernel, for every cap < required <= max_size
   vf_assume(reqw <= (uint64_t)(std::numeric_limits<typename V::size_ty>::max)());
